@@ -544,6 +544,7 @@ PROP_KINDS = {
     "C20": ["addedge", "deledge", "addnode", "delnode", "swap", "paint", "updattrs", "undo", "undo", "redo"],
 }
 SEG_ONLY = {"C07", "C08", "C09"}
+PLAN_SHARE = {"C02": 0.3, "C03": 0.3, "C10": 0.15}  # share of history-shaped sessions (default 0.25)
 
 
 EXH_SPEC = {"cfg": "pos", "ndim": 3, "with_ids": True, "scale": None,
@@ -626,8 +627,24 @@ def run_session(prop: str, spec: dict, rng: random.Random, nops: int, res: Resul
         # first operation: a bulk renumbering under an existing undo history is outside these
         # properties' quantifier (DESIGN §11.1)
         pending.append({"op": "enable", "keys": rng.choice([[F.K_TID], [F.K_LIN], [F.K_TID, F.K_LIN]]), "recompute": 1})
+    # history-shaped sessions ("plan"): several accepted edits, at least two undos, a new edit made
+    # in the middle of the timeline, then undo all the way down and redo all the way up. The states
+    # met on the way down are re-applications of recorded inverses in an order that only the
+    # history algorithm fixes; an edit that is legal only because of an earlier one (B after A)
+    # makes a wrong order visible to every per-state oracle, not only to C02's timeline.
+    plan: list[str] | None = None
+    plan_item: str | None = None
+    plan_tries = 0
+    edit_kinds = [k for k in kinds if k in EDIT_OPS]
+    if queue is None and "undo" in kinds and edit_kinds and rng.random() < PLAN_SHARE.get(prop, 0.25):
+        k_ = rng.randint(2, 4)
+        plan = ["edit"] * k_ + ["undo"] * rng.randint(2, k_) + ["edit"] * rng.randint(1, 2) + ["undo*", "redo*"]
+        if rng.random() < 0.35:
+            plan += ["undo"] * rng.randint(1, 4) + ["edit", "undo*", "redo*"]
+        res.count("session-shape:history-plan")
     step = 0
     while True:
+        plan_item = None
         if pending:
             op = pending.pop(0)
         elif queue is not None:
@@ -636,6 +653,14 @@ def run_session(prop: str, spec: dict, rng: random.Random, nops: int, res: Resul
             op = queue.pop(0)
             if "sym" in op:
                 op = resolve_sym(op["sym"], tracks)
+        elif plan is not None:
+            if not plan or step >= 60:
+                break
+            plan_item = plan[0]
+            if plan_item == "edit":
+                op = G.gen_op(rng, case, tracks, edit_kinds, always_recompute=prop in ("C08", "C09"))
+            else:
+                op = {"op": plan_item.rstrip("*")}
         else:
             if step >= nops:
                 break
@@ -673,6 +698,17 @@ def run_session(prop: str, spec: dict, rng: random.Random, nops: int, res: Resul
         if out.startswith("err:other"):
             fail(f"{kind}|unexpected-exception", f"{op} raised {out}")
             break
+        if plan_item is not None:
+            if plan_item == "edit":
+                plan_tries += 1
+                if accepted or plan_tries >= 4:
+                    plan.pop(0)
+                    plan_tries = 0
+            elif plan_item.endswith("*"):
+                if out != "true":
+                    plan.pop(0)
+            else:
+                plan.pop(0)
         if kind in ("undo", "redo") and out.startswith("err"):
             # undo()/redo() never raise on a history of accepted edits: the recorded inverse must apply
             fail(f"{kind}|raised", f"{kind}() raised ({out}) after the history {[o['op'] for o in ops]}")
